@@ -58,6 +58,10 @@ TApi ==
   /\ Accept(CASE E.name = "call" -> Call(s, E.progress)
               [] E.name = "publish" -> Publish(s, E.ack)
               [] E.name = "subscribe" -> Subscribe(s, E.h)
+              \* subscribe(obj) with two decorated methods = two Subscribe steps in one call
+              [] E.name = "subscribe_obj" ->
+                   LET r1 == Subscribe(s, E.hs[1]) r2 == Subscribe(r1.s, E.hs[2]) IN
+                     Mk(r2.s, [r2.re EXCEPT !.out = r1.re.out \o r2.re.out])
               [] E.name = "unsubscribe" -> Unsubscribe(s, E.sub, E.h, E.pos)
               [] E.name = "register" -> Register(s)
               [] E.name = "unregister" -> Unregister(s, E.reg)
